@@ -8,8 +8,8 @@ PROPS = {}
 
 
 def prop(pid, level, explanation, driver=None, trusted=(), assumptions=(), rule=None, native_n=None,
-         driver_timeout=None, driver_args=()):
-    PROPS[pid] = dict(level=level, explanation=explanation, driver=driver, trusted=list(trusted),
+         driver_timeout=None, driver_args=(), drivers=None):
+    PROPS[pid] = dict(drivers=drivers, level=level, explanation=explanation, driver=driver, trusted=list(trusted),
                       assumptions=list(assumptions), native_n=native_n or {}, driver_timeout=driver_timeout or {},
                       driver_args=list(driver_args))
     if rule:
@@ -65,3 +65,70 @@ prop('C18', 'exploration',
 prop('C19', 'exploration',
      'BOUNDED part: all permutations of event multisets x timesteps on the real engine against reference semantics.',
      driver='bounded.c19')
+
+TOPO_RULE = ('seeded random (ports schema, topology, placement, partial initial state) from the shape families plain, "..", '
+             '_path split/rename, two ports on one store, leaf port, nested port, glob, glob with own _path, nested glob; '
+             'oracle addr = independent reading of the topology documentation')
+prop('C06', 'exploration',
+     'BOUNDED so far: on the real engine, the value read for every declared variable is the value of the node addr(q), '
+     'after one update that node holds value read + all increments wired to it, and no other node changed. The write-side '
+     'helpers (normalize_path, assoc_path, update_in, deep_merge*) are proved under C17 / listed when their contracts land.',
+     drivers=[('bounded.topo', ['--prop', 'C06'])], rule=TOPO_RULE)
+prop('C07', 'exploration',
+     'BOUNDED ONLY (the view builder is schema-driven Store code outside the translated subset): states handed to '
+     'next_update have exactly the declared shape (no undeclared entries, glob = one entry per current child), from the '
+     'current hierarchy after every structural history; a step depending on a step that changed the structure sees it in '
+     'the same phase.',
+     drivers=[('bounded.topo', ['--prop', 'C07']), ('bounded.struct', ['--prop', 'C07']), ('bounded.steps', ['--prop', 'C07'])],
+     rule=TOPO_RULE)
+prop('C15', 'exploration',
+     'BOUNDED ONLY (Store._apply_config / generate are schema-driven code outside the translated subset): after '
+     'construction every declared variable exists at addr(q) holding the initial value if given else the declared default; '
+     'glob children named in the initial state get the sub-schema defaults; nested globs with explicitly wired inner children.',
+     drivers=[('bounded.topo', ['--prop', 'C15'])], rule=TOPO_RULE)
+STRUCT_RULE = ('seeded random structural histories (<=3/4 ticks, 1-2 operations per tick from _add,_delete,_generate,_divide,'
+               '_move plus value updates) against a reference model of the value tree, node identities, live-set bookkeeping')
+prop('C09', 'exploration',
+     'BOUNDED ONLY so far: after every batch the value tree equals the reference model of the documented meaning of the '
+     'operations (double entry), all nodes not named by an operation keep identity and value, division conserves.',
+     drivers=[('bounded.struct', ['--prop', 'C09'])], rule=STRUCT_RULE)
+prop('C10', 'exploration',
+     'BOUNDED so far: after every batch the engine\'s process/step paths equal the processes/steps found in the Store '
+     'tree, the published processes/steps/flow/topology equal state.get_*(), every live step runs exactly once per '
+     'phase, nothing dead is invoked, every live process keeps being invoked.',
+     drivers=[('bounded.struct', ['--prop', 'C10'])], rule=STRUCT_RULE)
+prop('C05', 'exploration',
+     'BOUNDED so far: random flow DAGs (+derivers, nesting): each step exactly once per phase with timestep 0, derivers '
+     'first in declaration order, dependencies before dependants, a dependant sees its dependencies\' outputs of this phase '
+     '(also structural ones through a glob port), steps of one layer see the same state, phases only after batches.',
+     drivers=[('bounded.steps', ['--prop', 'C05'])])
+prop('C04', 'exploration',
+     'BOUNDED so far: processes invoked at one instant are shown identical states; steps of one layer see one committed '
+     'state (incl. structural updates of earlier layers); the emitted trajectory is identical under permutations of the '
+     'listing order of processes / steps / flow / topology entries.',
+     drivers=[('bounded.steps', ['--prop', 'C04'])])
+
+prop('C08', 'other',
+     'PROVED (all inputs): update_set, update_null, update_accumulate (int / float / mixed), update_nonnegative_accumulate '
+     '(scalar branch) satisfy the updater laws of the statement. BOUNDED: the same laws through the real '
+     'Store.apply_update (default updater, per-update _updater by name or function, _multi_update batches, merge, '
+     'dict_value, user functions, numpy arrays, quantities and unit normalisation, unmentioned variables untouched, update '
+     'object not modified).',
+     drivers=[('bounded.c08', [])], assumptions=[FLOATS])
+prop('C11', 'other',
+     'PROVED (all inputs): divide_set, divide_set_value, divide_zero, divide_null, assert_no_divide, divide_binomial '
+     '(conservation for whatever numpy returns) and divide_split: for every integer (any size, any sign) the daughters sum '
+     'to the mother and differ by at most 1; floats are halved. BOUNDED: Store.divide end to end on the real engine (all '
+     'registered dividers incl. split_dict, dividers with config, branch-level dividers, explicit daughter states, '
+     'independence of daughters under in-place updates, two generations).',
+     drivers=[('bounded.c11', []), ('bounded.struct', ['--prop', 'C11'])], assumptions=[FLOATS])
+prop('C13', 'exploration',
+     'BOUNDED ONLY so far (pipes and OS processes are external): serial == parallel for parallel subsets of schedule '
+     'scenarios; deletion of compartments with idle / due / in-flight parallel processes; end() once, twice, never; '
+     'profiling with a large profile; no live worker afterwards.',
+     drivers=[('bounded.c13', [])], driver_timeout={'quick': 900, 'thorough': 7200},
+     trusted=['multiprocessing pipes are FIFO and faithful; join returns once the child left its loop'])
+prop('C16', 'exploration',
+     'BOUNDED so far: embedding at a path == at the root; three engine entry points give one trajectory; merge sequences '
+     'equal the model union; merged-in composites and argument dictionaries are never changed, then or later.',
+     drivers=[('bounded.c16', [])])
